@@ -65,6 +65,14 @@ class C03(PropCheck):
             cs.append(("rf 1 1 new a rf24 0 ; a enter ; " + " ; ".join("a " + x for x in seq) + " ; a address 0 ; a get listen ; a get auto_ack",
                        f"pipe0-role-depth{k}"))
         res.exhaustive_blocks.append(f"all {len(core) ** k} sequences of {k} pipe-0 / role calls")
+        # non-plus chip whose variant IS detected (a second object finds FEATURE unlocked and non-zero): the only way
+        # into the non-plus branches (start_carrier_wave, pa_level / lna bit), K2 hides them from a first object
+        for _ in range(n // 3):
+            ops = ["new z rf24 0", "new a rf24 0", "a enter", "a get is_plus_variant"]
+            for _ in range(rng.randint(4, depth // 2)):
+                ops.append(rng.choice(["a start_carrier_wave", "a stop_carrier_wave", "a enter"]) if rng.random() < 0.25
+                           else gen_rf.config_op(rng))
+            cs.append(("rf 1 0 " + " ; ".join(ops), "nonplus-detected"))
         # every method with optional parameters, called with them omitted (documented defaults)
         cs += [(gen_rf.defaults_session(rng), "documented-defaults") for _ in range(n // 2)]
         return cs
